@@ -241,11 +241,95 @@ def alpha_py(case):
     return np.array(a, dtype=float) if isinstance(a, list) else a
 
 
-def run_impl(sp, case):
-    """returns (input array, output array, recorded eigh list)"""
+# ---------------------------------------------------------------- memory layouts of the input array
+# The property is about VALUES: the prox of an array does not depend on how the array is laid out in
+# memory.  Every case is therefore also run on the same values held in non-C-contiguous arrays.
+def layouts_for(ishape):
+    nd = len(ishape)
+    if nd == 0:
+        return []
+    if nd == 1:
+        return ["strided", "reversed"]
+    ls = ["F", "T-view", "strided"]
+    if nd >= 3:
+        ls.append("perm-view")
+    return ls
+
+
+def to_layout(x, layout):
+    """an array with the values and shape of [x] (C-contiguous) in the named memory layout"""
+    if layout in (None, "C"):
+        return x
+    if layout == "F":                    # x.T.copy().T : Fortran-ordered, owns its data
+        return x.T.copy().T
+    if layout == "T-view":               # transposed view of a C-contiguous array of the reversed shape
+        base = np.ascontiguousarray(x.T)
+        return base.T
+    if layout == "perm-view":            # axes-permuted view (neither C nor F ordered for 3-D)
+        nd = x.ndim
+        perm = tuple(range(1, nd)) + (0,)
+        inv = tuple(np.argsort(perm))
+        base = np.ascontiguousarray(x.transpose(perm))
+        return base.transpose(inv)
+    if layout == "strided":              # every second entry (per axis) of a bigger array filled with junk
+        big = np.full([2 * d + 1 for d in x.shape], 7.25, dtype=x.dtype)
+        v = big[tuple(slice(1, 2 * d, 2) for d in x.shape)]
+        v[...] = x
+        return v
+    if layout == "reversed":             # negative stride (1-D)
+        base = np.ascontiguousarray(x[::-1])
+        return base[::-1]
+    raise ValueError(layout)
+
+
+def layout_checks(sp, case, x, out, nr):
+    """runs the case on the same VALUES in every non-C-contiguous layout; the output must equal the output
+    for the C-contiguous array (1e-13*scale; bitwise in practice) and, when it is not bitwise equal,
+    satisfy the same oracle.  returns (problems, layouts that were run)"""
+    probs, ran = [], []
+    cplx = case["cplx"]
+    scale = max([1.0] + [abs(v) for v in x.ravel()] + [abs(v) for v in out.ravel() if np.isfinite(v)])
+    for lay in layouts_for(case["ishape"]):
+        xin = to_layout(x, lay)
+        if xin.shape != x.shape or not np.array_equal(xin, x):
+            raise AssertionError("layout %s changed the values (harness bug)" % lay)
+        if x.ndim >= 2 and min(x.shape) > 1 and lay != "strided" and xin.flags["C_CONTIGUOUS"]:
+            raise AssertionError("layout %s is C-contiguous (harness bug)" % lay)
+        try:
+            _, o2, _ = run_impl(sp, case, layout=lay)
+        except Exception as e:   # noqa
+            probs.append(("layout-exception", {"layout": lay, "error": repr(e) + " <- " + repr(e.__cause__),
+                                               "expected": enc(out, cplx), "expected_shape": list(out.shape)}))
+            continue
+        ran.append(lay)
+        same_shape = o2.shape == out.shape
+        if same_shape and np.array_equal(o2, out, equal_nan=True):
+            continue
+        det = {"layout": lay, "layout_strides_in_items": [int(s // xin.itemsize) for s in xin.strides],
+               "expected": enc(out, cplx), "expected_shape": list(out.shape),
+               "observed": enc(o2, cplx), "observed_shape": list(o2.shape)}
+        if not same_shape or not np.all(np.abs(o2 - out) <= 1e-13 * scale):
+            # which parts of the oracle the output for this layout fails (diagnostic; equality is the demand)
+            sub = oracle(case, x, o2, nr) + projection_checks(sp, case, x, o2, layout=lay) if o2.size == x.size else []
+            det["oracle_failures_on_this_layout"] = [k for k, _ in sub]
+            if same_shape:
+                det["max_abs_difference"] = float(np.max(np.abs(o2 - out)))
+            probs.append(("layout", det))
+        else:
+            sub = oracle(case, x, o2, nr) + projection_checks(sp, case, x, o2, layout=lay)
+            if sub:
+                det["oracle_failures_on_this_layout"] = [k for k, _ in sub]
+                probs.append(("layout-oracle", det))
+    return probs, ran
+
+
+def run_impl(sp, case, layout=None):
+    """returns (input array, output array, recorded eigh list); [layout] selects the memory layout in
+    which the input VALUES are handed to the implementation (None = C-contiguous)"""
     cplx = case["cplx"]
     x = dec(case["input"], cplx).reshape(case["ishape"])
     x0 = x.copy()
+    x = to_layout(x, layout)
     with EighRecorder() as er:
         if case["kind"] == "prox":
             Pobj = build(sp, case["spec"], cplx)
@@ -597,8 +681,8 @@ def oracle(case, x, out, nr, n_comp=40, n_pert=200):
     return probs
 
 
-def projection_checks(sp, case, x, out):
-    """projections: feasible => unchanged; idempotent"""
+def projection_checks(sp, case, x, out, layout=None):
+    """projections: feasible => unchanged; idempotent (the second application in the same memory layout)"""
     probs = []
     cplx = case["cplx"]
     if case["kind"] == "prox":
@@ -618,7 +702,7 @@ def projection_checks(sp, case, x, out):
     c2 = dict(case)
     c2["input"] = enc(out, cplx)
     try:
-        _, out2, _ = run_impl(sp, c2)
+        _, out2, _ = run_impl(sp, c2, layout=layout)
         if out2.shape != out.shape or not np.allclose(out2, out, rtol=1e-9, atol=1e-10 * scale):
             probs.append(("not-idempotent", {"second": enc(out2, cplx)}))
     except Exception as e:   # noqa
@@ -966,6 +1050,16 @@ def corpus_cases():
         {"kind": "thresh", "fn": "l1_proj", "cplx": False, "ishape": [4], "eps": 4.0, "input": [1.0, -1.0, 1.0, 1.0], "tag": "corpus:boundary-ties"},
         {"kind": "thresh", "fn": "l1_proj", "cplx": False, "ishape": [2, 2], "eps": 1.0, "input": [2.0, 2.0, -2.0, 2.0], "tag": "corpus:ties"},
         {"kind": "thresh", "fn": "l1_proj", "cplx": False, "ishape": [3], "eps": 1.0, "input": [0.0, 0.0, 0.0], "tag": "corpus:zero"},
+        # multi-dimensional inputs whose value pattern is not symmetric under transposition (memory-layout runs:
+        # a flattening in memory order instead of index order permutes these), projecting and feasible branch
+        {"kind": "thresh", "fn": "l1_proj", "cplx": False, "ishape": [2, 3], "eps": 2.0,
+         "input": [3.0, -2.0, 0.5, 0.0, 1.0, -1.0], "tag": "corpus:layout"},
+        {"kind": "prox", "cplx": True, "spec": {"cls": "L1Proj", "shape": [3, 2], "epsilon": 1.5}, "alpha": 1.0, "ishape": [3, 2],
+         "input": [[3.0, 4.0], [0.0, 0.0], [0.5, 0.0], [0.0, -2.0], [1.0, 1.0], [0.0, 0.25]], "tag": "corpus:layout"},
+        {"kind": "prox", "cplx": False, "spec": {"cls": "L1Proj", "shape": [2, 2, 3], "epsilon": 100.0}, "alpha": 1.0,
+         "ishape": [2, 2, 3], "input": [float(v) for v in range(12)], "tag": "corpus:layout"},
+        {"kind": "prox", "cplx": False, "spec": {"cls": "Conj", "p": {"cls": "L1Proj", "shape": [2, 3], "epsilon": 2.0}}, "alpha": 0.5,
+         "ishape": [2, 3], "input": [3.0, -2.0, 0.5, 0.0, 1.0, -1.0], "tag": "corpus:layout"},
         {"kind": "thresh", "fn": "linf_proj", "cplx": False, "ishape": [4], "eps": 1.0, "input": [1.0, -1.0, 3.0, 0.25], "tag": "corpus:boundary"},
         {"kind": "prox", "cplx": False, "spec": {"cls": "Conj", "p": {"cls": "L1Reg", "shape": [3], "lamda": 1.0}}, "alpha": 2.0,
          "ishape": [3], "input": [3.0, -0.5, 1.0], "tag": "corpus:Conj(L1Reg)"},
@@ -1044,9 +1138,20 @@ def run(ctx):
         done.append(dict(case=c, x=x, out=out, expr=expr, cls=cls))
     # (a) numeric oracle on the implementation (source of failing inputs)
     bad_oracle = []
+    n_layout_runs = bad_layout = 0
     for d in done:
         nr = np.random.RandomState(rng.randrange(2 ** 31))
         probs = oracle(d["case"], d["x"], d["out"], nr) + projection_checks(sp, d["case"], d["x"], d["out"])
+        # (a') the same values in non-C-contiguous memory layouts: same output, same oracle
+        lprobs, ran = layout_checks(sp, d["case"], d["x"], d["out"], nr)
+        n_layout_runs += len(ran)
+        multi = len(d["case"]["ishape"]) >= 2 and sorted(d["case"]["ishape"])[-2] > 1
+        for lay in ran:
+            hk = "layout:%s%s" % (lay, ":multi-d" if multi else "")
+            ctx.coverage["histogram"][hk] = ctx.coverage["histogram"].get(hk, 0) + 1
+        if lprobs:
+            bad_layout += 1
+        probs = probs + lprobs
         d["probs"] = probs
         if probs:
             bad_oracle.append(d)
@@ -1060,14 +1165,20 @@ def run(ctx):
         corr_ok = False
         ctx.notes.append("correspondence could not run: %s" % str(e)[:800])
     ctx.obligation("corr:model==impl (%d cases)" % len(done), corr_ok and not failing)
-    ctx.obligation("oracle:variational-inequality/objective/shape/projection (%d cases)" % len(done), not bad_oracle)
+    ctx.obligation("oracle:variational-inequality/objective/shape/projection (%d cases)" % len(done),
+                   not any(not k.startswith("layout") for d in bad_oracle for k, _ in d["probs"]))
+    ctx.obligation("oracle:memory-layout independence, F-ordered / transposed / permuted / strided views (%d runs)" % n_layout_runs,
+                   bad_layout == 0)
     ctx.coverage["rule"] = (
         "seeded generator over the 6 thresh functions and all 11 Prox classes with nestings (Conj(leaf), Conj(Conj), Conj(Stack), "
         "Stack(leaves), Stack(Conj), UnitaryTransform(leaf, orthogonal/unitary MatMul), L2Reg(proxh=leaf)); shapes 1-3 dims <= 24 "
         "entries; real and complex; alpha scalar, per-block and elementwise arrays for Stack; inputs: grid values exactly on "
         "thresholds, ties, zeros, sparse, gaussian at scales 1e-3/1/100, on-boundary/interior/exterior points of the balls, "
         "PSD inputs with repeated/zero/negative spectra and non-Hermitian parts; a case is non-trivial when the array has >1 "
-        "entry and the output differs from the input; distinct = distinct (spec, alpha, input)")
+        "entry and the output differs from the input; distinct = distinct (spec, alpha, input); every case is re-run on the same "
+        "values in non-C-contiguous memory (>=2-D: Fortran-ordered copy, transposed view, strided view of a larger array, 3-D also an "
+        "axes-permuted view; 1-D: strided and negative-stride views) and must return the output of the C-contiguous run "
+        "(histogram keys layout:*)")
     ctx.coverage["disagreements_model_vs_impl"] = len(failing)
     ctx.coverage["disagreements_oracle_vs_impl"] = len(bad_oracle)
     for d in bad_oracle:
@@ -1080,6 +1191,13 @@ def run(ctx):
                    "observed": enc(d["out"], d["case"]["cplx"]), "observed_shape": list(d["out"].shape),
                    "expected": "P(alpha,y) is the minimiser of 1/2||x-y||^2 + alpha g(x) in y's shape (%s must hold)" % kind}
             rep.update(det)
+            if kind.startswith("layout"):
+                rep["kind"] = "oracle-layout"
+                what = {"layout": "output for the %s input differs from the output for the C-contiguous copy of the same values",
+                        "layout-oracle": "output for the %s input differs in the last bits and fails the oracle",
+                        "layout-exception": "the %s input of the same values raised"}[kind] % (det["layout"] + "-layout")
+                ctx.violation("%s: %s" % (d["cls"], what), rep, signature=sig)
+                continue
             ctx.violation("%s: %s fails on the implementation's output" % (d["cls"], kind), rep, signature=sig)
     bad_idx = set(id(d) for d in bad_oracle)
     for i in failing:
@@ -1117,6 +1235,12 @@ def replay(obj):
         return 1
     nr = np.random.RandomState(12345)
     probs = oracle(c, x, out, nr, n_comp=200, n_pert=400) + projection_checks(sp, c, x, out)
+    lprobs, ran = layout_checks(sp, c, x, out, nr)
+    for k, d in lprobs:
+        print("layout %s: %s; expected (C-contiguous run) %s observed %s" % (d.get("layout"), k, d.get("expected"),
+                                                                          d.get("observed", d.get("error"))))
+    print("layouts run:", ran)
+    probs = probs + lprobs
     print("case", json.dumps(c)[:2000])
     print("input", x.tolist(), "\nobserved", out.tolist(), "shape", out.shape)
     print("problems:", [(k, {a: b for a, b in d.items() if a in ("residual", "gap", "expected_shape", "observed_shape")}) for k, d in probs])
